@@ -1,9 +1,11 @@
 (* I/O wrapper around the extracted model of C13 (Conn/Serial.v).
    stdin lines:
      hist <op> <op> ...        op := a | s:<l|B>:<preset|->:<g|b>     (b: a header field fails validation)
+                                     | p:<l|B>:<preset|->:<g|b>:<k>  send suspended after a partial write, k allocations, resumed
      reply <resp|err|unk|inv|rawunk|rawinv> serial=<n|-> sender=<hex|-|none> iface=.. member=.. object=.. sig=.. name=<hex> text=<hex|-|none>
    stdout:
      hist:  a:<serial> | s:<reported>:<serial on the wire>:<byte order flag> | e   ... (PANIC ends the line)
+            p:<reported after resume>:<serial on the wire>:<flag>:<serials allocated in between, +-separated|-> | e:<in between>
             followed by  issued=<serials handed out by the connection, in order> nallocs=<n>
      reply: T:<type code> RS:<n|-> D:<hex|-|none> OWN:<n|-> E:<hex|-|none>   or PANIC *)
 open Gen_model
@@ -18,6 +20,8 @@ let list_of_hex s =
 let opt_of s = if s = "none" then None else Some (list_of_hex s)
 let show_opt = function None -> "none" | Some l -> hex_of_list l
 let show_on = function None -> "-" | Some n -> string_of_int (int_of_n n)
+
+let plus l = if l = [] then "-" else String.concat "+" (List.map (fun s -> string_of_int (int_of_n s)) l)
 
 let kv_of toks =
   List.filter_map (fun t -> match String.index_opt t '=' with
@@ -48,6 +52,11 @@ let () =
                     | ["s"; bo; preset; g] ->
                         let p = if preset = "-" then None else Some (n_of_int (int_of_string preset)) in
                         (OpSend (msg_of (if bo = "B" then BE else LE) p), if g = "b" then None else Some [])
+                    | ["p"; bo; preset; g; k] ->
+                        let p = if preset = "-" then None else Some (n_of_int (int_of_string preset)) in
+                        let rec nat_of_int n = if n = 0 then O else S (nat_of_int (n - 1)) in
+                        (OpSendResumed (msg_of (if bo = "B" then BE else LE) p, nat_of_int (int_of_string k)),
+                         if g = "b" then None else Some [])
                     | _ -> failwith "bad op" in
                 mops := mop :: !mops;
                 match step (fun _ -> fields) !conn mop with
@@ -58,7 +67,11 @@ let () =
                      | EvSent (_, rep, hb) ->
                          let flag = match hb with b :: _ -> int_of_n b | [] -> 0 in
                          out := (Printf.sprintf "s:%d:%s:%c" (int_of_n rep) (show_on (wire_serial hb)) (Char.chr flag)) :: !out
-                     | EvSendErr _ -> out := "e" :: !out)
+                     | EvSentResumed (_, between, rep, hb) ->
+                         let flag = match hb with b :: _ -> int_of_n b | [] -> 0 in
+                         out := (Printf.sprintf "p:%d:%s:%c:%s" (int_of_n rep) (show_on (wire_serial hb)) (Char.chr flag) (plus between)) :: !out
+                     | EvSendErr (_, []) -> out := "e" :: !out
+                     | EvSendErr (_, between) -> out := ("e:" ^ plus between) :: !out)
                 | _ -> out := "PANIC" :: !out; raise Exit
               end) ops
           with Exit -> ());
